@@ -2,3 +2,32 @@
 #[allow(unused_imports)]
 use super::*;
 include!("/verif/replay/in_crate/common.rs");
+
+/// C10: every proper prefix of a valid handshake response, and every value of its url-length field, decodes to Ok or Err
+/// without panicking — directly and as the payload of a tag-2 message
+#[test]
+fn truncated_and_corrupted_handshake_responses_are_errors() {
+    use crate::core::msg::message::Message;
+    use crate::core::process::version::Version;
+    let resp = HandshakeResponse { public_key: [2; 33], signature: [3; 64], is_lite: false, block_fetch_url: "http://localhost:12101/block/".to_string(), challenge: [4; 32],
+        services: vec![], wallet_version: Version::new(1, 2, 3), core_version: Version::new(1, 2, 3) };
+    let full = resp.serialize();
+    let mut cases: Vec<(String, Vec<u8>)> = (0..full.len()).map(|n| (format!("the first {} of {} bytes", n, full.len()), full[..n].to_vec())).collect();
+    for url_len in [0u32, 1, 28, 29, 30, 141, 142, 143, 170, 171, 172, 10_000, u32::MAX] {
+        for keep in [142usize, 143, 150, full.len()] {
+            let mut b = full[..keep.min(full.len())].to_vec();
+            if b.len() >= 142 { b[138..142].copy_from_slice(&url_len.to_be_bytes()); }
+            cases.push((format!("{} bytes with the url-length field set to {}", b.len(), url_len), b));
+        }
+    }
+    for (what, buf) in cases {
+        for wrapped in [false, true] {
+            let b = buf.clone();
+            let prev = std::panic::take_hook();
+            std::panic::set_hook(Box::new(|_| {}));
+            let r = std::panic::catch_unwind(move || { if wrapped { let mut m = vec![2u8]; m.extend(b); Message::deserialize(m).is_ok() } else { HandshakeResponse::deserialize(&b).is_ok() } });
+            std::panic::set_hook(prev);
+            if r.is_err() { witness(format!("{} panicked on a handshake response: {}", if wrapped { "Message::deserialize (tag 2)" } else { "HandshakeResponse::deserialize" }, what)); }
+        }
+    }
+}
